@@ -88,6 +88,7 @@ func (dv *Router) advertSyncOnInterest(args ndn.InterestHandlerArgs, active bool
 	}
 
 	// Process each entry in the state vector
+	verifGate(dv, "advertSync", nil)
 	dv.mutex.Lock()
 	defer dv.mutex.Unlock()
 
